@@ -268,11 +268,30 @@ def find_literal(leaves: List[nf.Leaf], lit: Lit, need_sign=True, allow_reduced=
         if lit.conj and not (l.conj and (allow_reduced or not l.reduced)):
             elsewhere.append(l)
             continue
+        if l.reduced and not allow_reduced and lit.kind == "cmp" and _has_plain_twin(leaves, l):
+            # a copy of a literal inside an exists/forall reduction (e.g. the depot's "some
+            # customer is open" term) does not constrain the action itself
+            elsewhere.append(l)
+            continue
         if l.sign == 0:
             elsewhere.append(l)
             continue
         good.append(l)
     return good, elsewhere, rev
+
+
+def _has_plain_twin(leaves, l) -> bool:
+    """the same comparison (either polarity) also occurs outside any reduction"""
+    c = nf.cmpnf(l.node)
+    if c is None:
+        return False
+    for m in leaves:
+        if m is l or m.reduced:
+            continue
+        d = nf.cmpnf(m.node)
+        if d is not None and (d[0] == c[0] or d[0] == -c[0]) and (d[1] in (">0", ">=0")) == (c[1] in (">0", ">=0")):
+            return True
+    return False
 
 
 def strictness(leaf: nf.Leaf) -> Optional[bool]:
